@@ -129,9 +129,9 @@ Proof.
   - intros k v [I|I]; try discriminate; auto.
 Qed.
 
-Lemma DInv_step o s s' : DInv s -> mstep o s = Some s' -> DInv s'.
+Lemma DInv_step o s s' : no_rb o = true -> DInv s -> mstep o s = Some s' -> DInv s'.
 Proof.
-  intros D M. destruct o; simpl in M.
+  intros NR D M. destruct o; simpl in M; try discriminate NR.
   - unfold m_push in M. destruct (ctms s); [discriminate|]. inversion M; subst.
     apply (DInv_same_egs s); auto. simpl. intros k0 v0 [I|I]; [discriminate|auto].
   - rewrite m_pop_spec in M. destruct (ctms s) as [|m0 [|m1 r]]; try discriminate. inversion M; subst.
@@ -183,27 +183,28 @@ Proof.
     + intros k0 v0 I. apply lookup_add_mono. auto.
 Qed.
 
-Lemma DInv_run ops : forall s s', DInv s -> run ops s = Some s' -> DInv s'.
+Lemma DInv_run ops : forall s s', forallb no_rb ops = true -> DInv s -> run ops s = Some s' -> DInv s'.
 Proof.
-  induction ops as [|o r IH]; simpl; intros s s' D R.
+  induction ops as [|o r IH]; simpl; intros s s' NR D R.
   - inversion R; subst. exact D.
-  - destruct (mstep o s) as [s1|] eqn:M; [|discriminate]. eapply IH; [|exact R]. eapply DInv_step; eauto.
+  - apply andb_true_iff in NR. destruct NR as [N1 N2].
+    destruct (mstep o s) as [s1|] eqn:M; [|discriminate]. eapply IH; [exact N2| |exact R]. eapply DInv_step; eauto.
 Qed.
 
-(* for ALL call sequences (well bracketed or not) *)
+(* for ALL call sequences (well bracketed or not) without rollback; with failed drawings: C16_rollback.v *)
 Theorem gs_names_defined mark d ops s' :
-  egs_wf d = true -> run ops (fresh mark d) = Some s' ->
+  forallb no_rb ops = true -> egs_wf d = true -> run ops (fresh mark d) = Some s' ->
   forall k v, In (Tgs k v) (toks s') -> lookup k (egs s') = Some v.
 Proof.
-  intros W R. assert (D : DInv (fresh mark d)).
+  intros NR W R. assert (D : DInv (fresh mark d)).
   { split; [apply egs_wf_WF; exact W|]. simpl. intros k v []. }
-  exact (proj2 (DInv_run ops _ _ D R)).
+  exact (proj2 (DInv_run ops _ _ NR D R)).
 Qed.
 
 (* entries are never re-bound: what a name meant stays what it means *)
-Lemma egs_stable_step o s s' k v : WF (egs s) -> mstep o s = Some s' -> lookup k (egs s) = Some v -> lookup k (egs s') = Some v.
+Lemma egs_stable_step o s s' k v : no_rb o = true -> WF (egs s) -> mstep o s = Some s' -> lookup k (egs s) = Some v -> lookup k (egs s') = Some v.
 Proof.
-  intros W M L. destruct o; simpl in M.
+  intros NR W M L. destruct o; simpl in M; try discriminate NR.
   - unfold m_push in M. destruct (ctms s); [discriminate|]. inversion M; subst. exact L.
   - rewrite m_pop_spec in M. destruct (ctms s) as [|m0 [|m1 r]]; try discriminate. inversion M; subst. exact L.
   - inversion M; subst. unfold m_begin_text. destruct (toks s) as [|x r]; [exact L|]. destruct x; exact L.
@@ -233,16 +234,18 @@ Proof.
 Qed.
 
 Theorem gs_names_stable mark d ops1 ops2 s1 s2 k v :
+  forallb no_rb ops1 = true -> forallb no_rb ops2 = true ->
   egs_wf d = true -> run ops1 (fresh mark d) = Some s1 -> run ops2 s1 = Some s2 ->
   lookup k (egs s1) = Some v -> lookup k (egs s2) = Some v.
 Proof.
-  intros W R1. assert (D : DInv (fresh mark d)).
+  intros N1 N2 W R1. assert (D : DInv (fresh mark d)).
   { split; [apply egs_wf_WF; exact W|]. simpl. intros ? ? []. }
-  pose proof (DInv_run ops1 _ _ D R1) as D1. clear D R1. revert s1 D1.
+  pose proof (DInv_run ops1 _ _ N1 D R1) as D1. clear D R1. revert s1 D1.
   induction ops2 as [|o r IH]; simpl; intros s1 D1 R2 L.
   - inversion R2; subst. exact L.
-  - destruct (mstep o s1) as [sx|] eqn:M; [|discriminate].
-    apply (IH sx); auto. eapply DInv_step; eauto. eapply egs_stable_step; eauto. exact (proj1 D1).
+  - simpl in N2. apply andb_true_iff in N2. destruct N2 as [NA NB].
+    destruct (mstep o s1) as [sx|] eqn:M; [|discriminate].
+    apply (IH NB sx); auto. eapply DInv_step; eauto. eapply egs_stable_step; eauto. exact (proj1 D1).
 Qed.
 
 Example gs_names_example :
